@@ -72,7 +72,7 @@ func stmtKinds() []stmtKind {
 		{Kind: "CREATE-SUBSCRIPTION", Text: `CREATE SUBSCRIPTION sub0 ON "db1"."autogen" DESTINATIONS ALL 'http://127.0.0.1:9'`, Need: needAdmin},
 		{Kind: "DROP-SUBSCRIPTION", Text: `DROP SUBSCRIPTION sub0 ON "db1"."autogen"`, Need: needAdmin},
 		{Kind: "CREATE-CONTINUOUS-QUERY", Text: "CREATE CONTINUOUS QUERY cq0 ON db1 BEGIN SELECT mean(v) INTO m1mean FROM m1 GROUP BY time(1h) END", Need: needAdmin},
-		{Kind: "SHOW-CONTINUOUS-QUERIES", Text: "SHOW CONTINUOUS QUERIES", Need: needAuth},
+		{Kind: "SHOW-CONTINUOUS-QUERIES", Text: "SHOW CONTINUOUS QUERIES", Need: needRead},
 		{Kind: "DROP-CONTINUOUS-QUERY", Text: "DROP CONTINUOUS QUERY cq0 ON db1", Need: needWriteOrAdmin},
 		{Kind: "KILL-QUERY", Text: "KILL QUERY 1", Need: needAdmin},
 		{Kind: "CREATE-STREAM", Text: "CREATE STREAM st0 INTO db1.autogen.m1stream ON SELECT sum(v) FROM db1.autogen.m1 GROUP BY time(1m), host DELAY 10s",
@@ -81,15 +81,15 @@ func stmtKinds() []stmtKind {
 		{Kind: "DROP-STREAM", Text: "DROP STREAM st0", Need: needAdmin},
 		{Kind: "CREATE-DOWNSAMPLE", Text: "CREATE DOWNSAMPLE ON db1.autogen (float(sum),integer(sum)) WITH DURATION 300d SAMPLEINTERVAL(1d,2d) TIMEINTERVAL(1m,3m)",
 			AdminText: "CREATE DOWNSAMPLE ON sacdb.autogen (float(sum),integer(sum)) WITH DURATION 300d SAMPLEINTERVAL(1d,2d) TIMEINTERVAL(1m,3m)", Need: needAdmin},
-		{Kind: "SHOW-DOWNSAMPLES", Text: "SHOW DOWNSAMPLES ON db1", Need: needRead},
+		{Kind: "SHOW-DOWNSAMPLES", Text: "SHOW DOWNSAMPLES ON db1", Need: needDB},
 		{Kind: "DROP-DOWNSAMPLE", Text: "DROP DOWNSAMPLES ON db1", Need: needAdmin},
 		{Kind: "SHOW-CONFIGS", Text: "SHOW CONFIGS", Need: needAdmin},
 		{Kind: "SET-CONFIG", Text: `SET CONFIG sql "logging.level" = "info"`, Need: needAdmin},
 		{Kind: "SHOW-CLUSTER", Text: "SHOW CLUSTER", Need: needAdmin},
-		{Kind: "SHOW-MEASUREMENT-KEYS", Text: "SHOW SHARDKEY FROM m1", Need: needRead},
+		{Kind: "SHOW-MEASUREMENT-KEYS", Text: "SHOW SHARDKEY FROM m1", Need: needDB},
 		// any authenticated user
 		{Kind: "SHOW-DATABASES", Text: "SHOW DATABASES", Need: needAuth, Core: true},
-		{Kind: "SHOW-QUERIES", Text: "SHOW QUERIES", Need: needAuth},
+		{Kind: "SHOW-QUERIES", Text: "SHOW QUERIES", Need: needDB},
 		// two statements in one request: the second needs more than the first
 		{Kind: "multi-SELECT+DROP-DATABASE", Text: "SELECT v FROM m1 LIMIT 1; DROP DATABASE db2", AdminText: "SELECT v FROM m1 LIMIT 1; SHOW DATABASES", Need: needAdmin, Core: true},
 	}
@@ -164,10 +164,16 @@ func (e *env) runSufficientStmt(sk stmtKind) {
 			switch {
 			case resp.Err != "":
 				v = vClientErr
+			case (resp.Status == 401 || resp.Status == 403) && w.class != clAdmin:
+				// stricter than the model: not against the property (which only forbids serving the
+				// insufficient), recorded
+				v = "refused-although-modelled-sufficient"
+				c.Distinct("stricter-than-model-"+e.tag(), sk.Kind+" ["+w.class+"]: "+trunc(resp.Body, 120))
 			case resp.Status == 401 || resp.Status == 403:
+				// the administrator turned away: the rejections observed above would be vacuous
 				v = "SUFFICIENT-REJECTED"
-				c.Violation("sufficient-rejected:POST /query stmt="+sk.Kind+":"+w.class,
-					fmt.Sprintf("[%s] %s (%s) is refused for %s although it holds %s: %d %q", e.tag(), sk.Kind, w.text, cr.key(), sk.Need.String(), resp.Status, trunc(resp.Body, 120)),
+				c.Violation("administrator-rejected:POST /query stmt="+sk.Kind,
+					fmt.Sprintf("[%s] %s (%s) is refused for %s: %d %q", e.tag(), sk.Kind, w.text, cr.key(), resp.Status, trunc(resp.Body, 120)),
 					map[string]any{"flavour": e.tag(), "kind": "sufficient", "case": "POST /query stmt=" + sk.Kind, "cases": []oneCase{{Cred: cr, Req: req, Resp: resp, Verdict: v}}})
 			case resp.Status/100 == 2 && bodyOnlyErrors(resp.Body):
 				v = "accepted-statement-error"
